@@ -211,6 +211,12 @@ func checkC07(c *Ctx) {
 		c.undecided("C07-NAN", "comparisons.go", "float operands", token.NoPos, fmt.Sprintf("only %d float operands of comparisons found (6 confirmed by reading)", nNaN))
 	}
 
+	// ---- C07-CODE: the three-way code of a comparison that can signal NaN (2) is not negated or scaled
+	c.checkCompareCode()
+
+	// ---- C07-EXACT: an integer quotient is the result only when the remainder is zero
+	c.checkExactDivision(scope)
+
 	// ---- C07-OPS (AST)
 	c.checkCompareOps()
 
@@ -570,4 +576,213 @@ func nodeString(n ast.Node) string {
 		return true
 	})
 	return sb.String()
+}
+
+// nanCodeFuncs: zygo functions whose first result is an int three-way code
+// that can be the NaN code 2 (returned as a constant, or passed on from
+// another such function).
+func (c *Ctx) nanCodeFuncs() map[*ssa.Function]bool {
+	set := map[*ssa.Function]bool{}
+	isCode := func(f *ssa.Function) bool {
+		res := f.Signature.Results()
+		if res.Len() < 1 {
+			return false
+		}
+		b, ok := res.At(0).Type().Underlying().(*types.Basic)
+		return ok && b.Kind() == types.Int
+	}
+	funcs := c.zygoFuncs()
+	for changed := true; changed; {
+		changed = false
+		for _, f := range funcs {
+			if set[f] || !isCode(f) {
+				continue
+			}
+			for _, r := range returnsOf(f) {
+				if len(r.Results) == 0 {
+					continue
+				}
+				for _, leaf := range phiLeaves(r.Results[0]) {
+					if k, ok := constIntOf(leaf); ok && k == 2 {
+						set[f] = true
+					}
+					if g := codeSource(leaf); g != nil && set[g] {
+						set[f] = true
+					}
+				}
+			}
+			if set[f] {
+				changed = true
+			}
+		}
+	}
+	return set
+}
+
+// codeSource: v is the (first) result of a static call; returns the callee.
+func codeSource(v ssa.Value) *ssa.Function {
+	switch x := v.(type) {
+	case *ssa.Extract:
+		if x.Index == 0 {
+			if call, ok := x.Tuple.(*ssa.Call); ok {
+				return call.Call.StaticCallee()
+			}
+		}
+	case *ssa.Call:
+		return x.Call.StaticCallee()
+	}
+	return nil
+}
+
+func (c *Ctx) checkCompareCode() {
+	nan := c.nanCodeFuncs()
+	if len(nan) < 3 {
+		c.undecided("C07-CODE", "comparisons.go", "NaN-signalling comparisons", token.NoPos, fmt.Sprintf("only %d functions found that can return the NaN code", len(nan)))
+		return
+	}
+	c.note("nan_code_functions", len(nan))
+	n := 0
+	for _, f := range c.zygoFuncs() {
+		seen := map[string]bool{}
+		eachInstr(f, func(b *ssa.BasicBlock, i int, in ssa.Instruction) {
+			var operand ssa.Value
+			how := ""
+			switch x := in.(type) {
+			case *ssa.UnOp:
+				if x.Op == token.SUB {
+					operand, how = x.X, "negated"
+				}
+			case *ssa.BinOp:
+				if x.Op == token.MUL || x.Op == token.SUB || x.Op == token.ADD {
+					if _, isK := x.Y.(*ssa.Const); isK {
+						operand, how = x.X, "transformed by "+x.Op.String()
+					} else if _, isK := x.X.(*ssa.Const); isK {
+						operand, how = x.Y, "transformed by "+x.Op.String()
+					}
+				}
+			}
+			if operand == nil {
+				return
+			}
+			for _, leaf := range phiLeaves(operand) {
+				g := codeSource(leaf)
+				if g == nil || !nan[g] {
+					continue
+				}
+				// accepted when the code was first compared with a constant (the NaN code is handled apart)
+				handled := guardedBy(b, func(cond ssa.Value) (bool, bool) {
+					bo, ok := cond.(*ssa.BinOp)
+					if !ok {
+						return false, false
+					}
+					if _, isK := bo.Y.(*ssa.Const); isK && bo.X == leaf {
+						return true, true
+					}
+					return false, false
+				}) || guardedBy(b, func(cond ssa.Value) (bool, bool) {
+					bo, ok := cond.(*ssa.BinOp)
+					if !ok {
+						return false, false
+					}
+					if _, isK := bo.Y.(*ssa.Const); isK && bo.X == leaf {
+						return true, false
+					}
+					return false, false
+				})
+				n++
+				key := "result of " + fnName(g) + " " + how
+				if seen[key] {
+					continue
+				}
+				seen[key] = true
+				c.check(handled, "C07-CODE", fnName(f), key, in.Pos(),
+					"the code is tested against a constant before it is transformed",
+					"the three-way result of "+fnName(g)+", which is 2 for an unordered (NaN) pair, is "+how+": 2 becomes a value the operator table reads as an ordering, so a comparison with NaN answers true from one side")
+			}
+		})
+	}
+	// every caller that passes the code on untouched is fine; report how many call sites were looked at
+	sites := 0
+	for _, f := range c.zygoFuncs() {
+		eachInstr(f, func(b *ssa.BasicBlock, i int, in ssa.Instruction) {
+			if call, ok := in.(*ssa.Call); ok {
+				if g := call.Call.StaticCallee(); g != nil && nan[g] {
+					sites++
+				}
+			}
+		})
+	}
+	c.note("nan_code_call_sites", sites)
+	c.check(sites >= 10, "C07-CODE", "comparisons.go", "call sites of NaN-signalling comparisons examined", token.NoPos,
+		fmt.Sprintf("%d call sites of %d NaN-signalling comparison functions examined, %d arithmetic uses of their result", sites, len(nan), n),
+		fmt.Sprintf("only %d call sites found; the comparison family moved", sites))
+}
+
+// sameFieldLoad: a and b load the same field of the same base value.
+func sameFieldLoad(a, b ssa.Value) bool {
+	if a == b {
+		return true
+	}
+	la, ok1 := a.(*ssa.UnOp)
+	lb, ok2 := b.(*ssa.UnOp)
+	if !ok1 || !ok2 || la.Op != token.MUL || lb.Op != token.MUL {
+		return false
+	}
+	fa, ok1 := la.X.(*ssa.FieldAddr)
+	fb, ok2 := lb.X.(*ssa.FieldAddr)
+	return ok1 && ok2 && fa.X == fb.X && fa.Field == fb.Field
+}
+
+func (c *Ctx) checkExactDivision(scope []*ssa.Function) {
+	n := 0
+	for _, f := range scope {
+		eachInstr(f, func(b *ssa.BasicBlock, i int, in ssa.Instruction) {
+			q, ok := in.(*ssa.BinOp)
+			if !ok || q.Op != token.QUO {
+				return
+			}
+			if _, _, isInt := intBits(q.X.Type()); !isInt {
+				return
+			}
+			if _, isK := q.Y.(*ssa.Const); isK {
+				return
+			}
+			// only quotients that become the value of an integer of the language
+			var useBlk *ssa.BasicBlock
+			for _, ref := range *q.Referrers() {
+				if st, ok := ref.(*ssa.Store); ok && st.Val == ssa.Value(q) {
+					if fa, ok := st.Addr.(*ssa.FieldAddr); ok {
+						if nmd, ok := derefNamed(fa.X.Type()); ok && (nmd.Obj().Name() == "SexpInt" || nmd.Obj().Name() == "SexpUint64") {
+							useBlk = st.Block()
+						}
+					}
+				}
+			}
+			if useBlk == nil {
+				return
+			}
+			n++
+			guarded := guardedBy(useBlk, func(cond ssa.Value) (bool, bool) {
+				bo, ok := cond.(*ssa.BinOp)
+				if !ok || (bo.Op != token.EQL && bo.Op != token.NEQ) {
+					return false, false
+				}
+				k, isK := constIntOf(bo.Y)
+				rem, isRem := bo.X.(*ssa.BinOp)
+				if !isK || k != 0 || !isRem || rem.Op != token.REM {
+					return false, false
+				}
+				if !sameFieldLoad(rem.X, q.X) || !sameFieldLoad(rem.Y, q.Y) {
+					return false, false
+				}
+				return true, bo.Op == token.EQL
+			})
+			c.check(guarded, "C07-EXACT", fnName(f), "integer quotient "+typeShort(q.X.Type()), q.Pos(),
+				"the integer quotient is produced only under `a % b == 0` on the same operands",
+				"an integer quotient is produced without the integer test `a % b == 0` on the same operands: whether the division is exact is decided some other way (e.g. in float64, which cannot tell beyond 2^53), so a non-dividing pair yields a truncated integer or a dividing pair a rounded float")
+		})
+	}
+	if n < 2 {
+		c.undecided("C07-EXACT", "numerictower.go", "integer quotients", token.NoPos, fmt.Sprintf("only %d integer divisions found in the numeric tower", n))
+	}
 }
